@@ -142,7 +142,7 @@ def run_history(case):
     Q = zoo.rot2(0.6) if d == 2 else zoo.generic_rotations(seed, 1)[0]
     changes = [("affine", lambda P: P @ A.T + 0.1), ("rotate", lambda P: P @ Q.T), ("translate", lambda P: P + 0.35)]
     refresh = ["reload()", "reload(mesh)", "copy()", "copy(mesh)", "update(callback=reload)", "reload(hess=True)", "points[:]=;reload()"]
-    if hasattr(zoo.region(kind, base).quadrature, "inv"):
+    if kind in ("quad", "hexahedron"):  # (extrapolation needs as many quadrature points as cell points: linear families)
         # (another user of the region's element object in between: tools.extrapolate builds a helper region on it)
         refresh += ["extrapolate;reload(mesh)", "extrapolate;copy()"]
 
@@ -153,6 +153,7 @@ def run_history(case):
         mesh = fem.Mesh(base.points.copy(), base.cells.copy(), base.cell_type)
         region = zoo.region(kind, mesh)
         lab = []
+        parents = []  # regions a copy was taken from: (region, snapshot of its mesh points, its dV) -- they stay what they were
         for k in seq:
             (cn, cf), rf = changes[k // len(refresh)], refresh[k % len(refresh)]
             lab.append(f"{cn}+{rf}")
@@ -178,6 +179,7 @@ def run_history(case):
                     got = region
                 elif rf == "copy()":
                     got = region.copy()
+                    parents.append((region, region.mesh.points.copy(), np.array(region.dV, copy=True)))
                     region = got
                     mesh = region.mesh  # a copy owns a (deep) copy of its mesh: later changes go to that one
                 elif rf == "copy(mesh)":
@@ -198,6 +200,11 @@ def run_history(case):
                 cnt["traces"] += 1
                 if a.shape != b.shape or np.abs(a - b).max() > 1e-12 * max(np.abs(b).max(), 1e-300):
                     viol.append(dict(key=f"{key}/{sub}/{name}", what=f"region.{name} after changing the mesh points and refreshing the region differs from a region created on the current mesh", observed=float(np.abs(a - b).max()) if a.shape == b.shape else list(a.shape), expected=0, tol=1e-12))
+                    ok = False
+            for pi_, (preg, psnap, pdV) in enumerate(parents):
+                cnt["traces"] += 1
+                if not np.array_equal(preg.mesh.points, psnap) or not np.array_equal(np.asarray(preg.dV), pdV):
+                    viol.append(dict(key=f"{key}/{sub}/parent{pi_}", what="the region a copy was taken from changed (its mesh points or its dV) when the COPY's mesh was modified / the copy was refreshed", observed=float(np.abs(preg.mesh.points - psnap).max()), expected=0, tol=0))
                     ok = False
             if not ok:
                 break
